@@ -108,6 +108,17 @@ def applyOne (space loc value : String) : Option (List String × Nat × Nat) :=
   | .ok i => some ([i.xmlns, i.to, i.src, i.id, i.lang], i.version.1, i.version.2)
   | .error _ => none
 
+/-- the stream information the probe `attrKeepGrid` starts from: everything established -/
+def keepInfo : Info :=
+  ⟨⟨"", ""⟩, "jabber:client", "est.example", "u@est.example/r", "old", (1, 0), "en"⟩
+
+/-- what `FromStartElement` leaves in an ESTABLISHED stream information (`keepInfo`) for a start
+element with one attribute; `jid.Parse` refuses exactly `a@@b` on the probe's values -/
+def applyKeep (space loc value : String) : Option (List String × Nat × Nat) :=
+  match applyAttrs (fun v => if v = "a@@b" then none else some v) [⟨⟨space, loc⟩, value⟩] keepInfo with
+  | .ok i => some ([i.xmlns, i.to, i.src, i.id, i.lang], i.version.1, i.version.2)
+  | .error _ => none
+
 def isWhite (s : String) : Bool := s.toList.all fun c => c = ' ' || c = '\t' || c = '\r' || c = '\n'
 
 /-- the condition of a `<stream:error>`: the local name of its first child element -/
